@@ -137,6 +137,8 @@ pub struct Ctx {
     src_stride: usize,
     last_pos: [Cell<Option<usize>>; MAXT],
     logs: RefCell<Vec<Vec<usize>>>,
+    /// answers of length queries and panics, per thread (part of the outcome: C17 compares outcomes between builds)
+    qlog: RefCell<Vec<Vec<String>>>,
     handed: RefCell<[u16; 64]>,
     closure_calls: Cell<u32>,
     closure_fault_at: Cell<Option<u32>>,
@@ -181,10 +183,14 @@ impl Ctx {
         if faulty && matches!(class, "duplicate" | "ledger" | "handed-twice") && primary != "C18" {
             also.push("C18");
         }
+        if faulty && matches!(class, "hang" | "no-return") {
+            // a call that never returns is also a progress violation
+            also.push("C09");
+        }
         if self.has_skip && matches!(class, "duplicate" | "thread-order" | "realtime-order" | "index-fidelity" | "address" | "handed-twice") && primary != "C06" {
             also.push("C06");
         }
-        if self.has_foreach && matches!(class, "lost" | "duplicate" | "hang" | "no-return") && primary != "C12" && !faulty {
+        if self.has_foreach && matches!(class, "lost" | "duplicate" | "hang" | "no-return" | "foreach-index") && primary != "C12" && !faulty {
             also.push("C12");
         }
         if matches!(class, "duplicate" | "handed-twice") && self.cfg.kind.consuming() && primary != "C08" {
@@ -221,16 +227,34 @@ impl Ctx {
     }
 
     /// one delivered position `pos` (from an index if the API reported one, else from the element)
+    /// One delivered position. The position is the *element's* source position whenever the harness saw
+    /// the element (exactly-once, order and prefix oracles are about elements); the index the API
+    /// reported with it is judged separately (C02). For announced but unconsumed chunk items only the
+    /// reported index is known.
     fn deliver_pos(&self, tid: usize, what: &str, idx: Option<usize>, s: Option<&Seen>) -> Option<usize> {
-        let pos = match (idx, s) {
-            (Some(i), _) => i,
-            (None, Some(s)) => match self.pos_from_key(s.key) {
-                Some(p) => p,
+        let epos = match s {
+            Some(s) => match self.pos_from_key(s.key) {
+                Some(p) => Some(p),
                 None => {
-                    self.viol("C01", "foreign-element", format!("{what} on thread {tid} delivered an element (key {}) that is not an element of the source", s.key));
+                    self.viol("C01", "foreign-element", format!("{what} on thread {tid} delivered an element (key {}, reported index {idx:?}) that is not an element of the source", s.key));
+                    if let Some(i) = idx {
+                        self.viol("C02", "index-fidelity", format!("{what} on thread {tid} reported index {i} with an element (key {}) that is not an element of the source", s.key));
+                    }
                     return None;
                 }
             },
+            None => None,
+        };
+        if let (Some(i), Some(s)) = (idx, s) {
+            if i >= self.cfg.len {
+                self.viol("C02", "index-beyond-source", format!("{what} on thread {tid} reported index {i} (element key {}) but a sequential iteration of the source produces nothing at that position ({} elements)", s.key, self.cfg.len));
+            } else if s.key != self.key_at(i) {
+                self.viol("C02", "index-fidelity", format!("{what} on thread {tid} reported index {i} with element key {} but the source has key {} at that position", s.key, self.key_at(i)));
+            }
+        }
+        let pos = match (epos, idx) {
+            (Some(e), _) => e,
+            (None, Some(i)) => i,
             (None, None) => return None,
         };
         if pos >= self.cfg.len {
@@ -241,9 +265,6 @@ impl Ctx {
         if let Some(s) = s {
             if !s.valid {
                 self.viol("C08", "garbage", format!("{what} on thread {tid} delivered a destroyed / uninitialised element at position {pos}"));
-            }
-            if idx.is_some() && s.key != self.key_at(pos) {
-                self.viol("C02", "index-fidelity", format!("{what} on thread {tid} reported index {pos} with element key {} but the source has key {} at that position", s.key, self.key_at(pos)));
             }
             if self.cfg.kind.by_ref() && s.addr != self.src_base + pos * self.src_stride {
                 self.viol("C19", "address", format!("{what} on thread {tid}: reference for position {pos} does not point at the collection's element"));
@@ -331,6 +352,7 @@ impl Ctx {
 
     fn on_len(&self, tid: usize, what: &str, ci: &CallInfo, v: Option<usize>) {
         let snap = ci.snap;
+        self.qlog.borrow_mut()[tid].push(format!("{what}={v:?}"));
         match v {
             Some(x) => {
                 if snap[S_MINLEN] != 0 && (x as u64) + 1 > snap[S_MINLEN] {
@@ -444,6 +466,7 @@ where
 }
 
 fn on_panic(cx: &Ctx, tid: usize, what: &str, m: &str) {
+    cx.qlog.borrow_mut()[tid].push(format!("{what}:panic"));
     if m.contains("injected fault") {
         mark_panic();
     } else {
@@ -509,11 +532,12 @@ where
                     pulls += 1;
                     sh::begin_call();
                     // results of a buffered pull borrow the buffer: consume inside the guarded region
+                    let kk = if k != ALL && k >= LASTALL { if pulls == j { ALL } else { k - LASTALL } } else { k };
                     let r = sh::guarded(|| match bi.next() {
                         Some(c) => {
                             let b = c.begin_idx;
                             let ci = sh::end_call();
-                            let (announced, seen) = consume_chunk(cx, tid, &what, c.values, k);
+                            let (announced, seen) = consume_chunk(cx, tid, &what, c.values, kk);
                             cx.on_got(tid, &what, &ci, Some(b), announced, &seen, Some(n));
                             true
                         }
@@ -541,6 +565,11 @@ where
                 let on_item = |idx: Option<usize>, x: I::Item| -> u64 {
                     cx.closure_entry();
                     let s = obs(&x);
+                    if let Some(i) = idx {
+                        if i >= cx.cfg.len || s.key != cx.key_at(i) {
+                            cx.viol("C12", "foreach-index", format!("{what} on thread {tid} passed index {i} with the element of key {}", s.key));
+                        }
+                    }
                     let w = match cx.deliver_pos(tid, &what, idx, Some(&s)) {
                         Some(p) => 1u64 << (2 * p as u64).min(62),
                         None => 0,
@@ -669,6 +698,7 @@ where
         src_stride,
         last_pos: Default::default(),
         logs: RefCell::new(vec![vec![]; cfg.plans.len()]),
+        qlog: RefCell::new(vec![vec![]; cfg.plans.len()]),
         handed: RefCell::new([0; 64]),
         closure_calls: Cell::new(0),
         closure_fault_at: Cell::new(if let Fault::Closure(k) = fault { Some(k) } else { None }),
@@ -835,7 +865,7 @@ where
         }
     }
     for (t, l) in cx.logs.borrow().iter().enumerate() {
-        out.push_str(&format!("t{t}:{l:?} "));
+        out.push_str(&format!("t{t}:{l:?}{:?} ", cx.qlog.borrow()[t]));
     }
     out.push_str(&format!("rest:{rest_keys:?}"));
     out
